@@ -25,6 +25,8 @@ func init() {
 			{ID: "C02.R3", Text: "serialisation symmetry: same document type, exported fields with distinct JSON tags, same xattr path / id expressions on write and read; file backend reads what it writes", Run: c02r3},
 			{ID: "C02.R4", Text: "empty document is all-zero; the 'latest' branch runs iff ¬exist ∧ AutoReset==latest and builds the offset from the sampled vBucket (not collection) high seqNo and failover entry 0", Run: c02r4},
 			{ID: "C02.R5", Text: "requested end ← InitializeLatestSeqNo(high seqNo) (parameter iff finite mode else 2^64-1) and the observer receives the same offset.LatestSeqNo", Run: c02r5},
+			{ID: "C02.R7", Text: "'no checkpoint' is concluded only from evidence: the file backend treats exactly os.ErrNotExist as absent and returns every other read error; the Couchbase backend sets exist only after the xattr was read and parsed", Run: c02r7},
+			{ID: "C02.R8", Text: "the re-request after a rollback keeps the requested end and the other identities (same rules as C08.R1, C08.R2)", Run: func(c *Ctx, id string) { c08r1(c, id); c08r2(c, id) }},
 			{ID: "C02.R6", Text: "read-only wrapper: Save/Clear perform no call and return nil, Load forwards its parameters; Start wraps the metadata whenever Metadata.ReadOnly and under no other condition", Run: c02r6},
 		},
 	})
@@ -159,12 +161,7 @@ func c02r2(c *Ctx, id string) {
 				saveT[dp] = rest
 			}
 		}
-		// every ranged entry is dumped: the map update is unconditional inside the callback
-		if gs := guardsOf(sd.update.Block()); len(gs) == 0 {
-			c.OK(id, "dump-all@"+fname(sv), sd.update.Pos(), "the dump entry is written unconditionally for every ranged position")
-		} else {
-			c.Fail(id, "dump-all@"+fname(sv), sd.update.Pos(), "the dump entry is written only under %s — backends that store the whole state would lose the other vBuckets", w.Origin(gs[0].Cond))
-		}
+		dumpAll(c, id, sv, sd)
 		for _, ld := range loads {
 			c.see(ld)
 			for _, ls := range findLoadSites(c, id, ld) {
@@ -645,4 +642,99 @@ func c02r6(c *Ctx, id string) {
 	if n == 0 {
 		c.Fail(id, "readonly:install", 0, "NewReadMetadata is never called — read-only mode would write")
 	}
+}
+
+// dumpAll: every ranged position is dumped — the map update is unconditional inside the Range callback.
+func dumpAll(c *Ctx, id string, sv *ssa.Function, sd *saveDump) {
+	if gs := guardsOf(sd.update.Block()); len(gs) == 0 {
+		c.OK(id, "dump-all@"+fname(sv), sd.update.Pos(), "the dump entry is written unconditionally for every ranged position")
+	} else {
+		c.Fail(id, "dump-all@"+fname(sv), sd.update.Pos(), "the dump entry is written only under %s — backends that store the whole state (file, custom) would lose the other vBuckets' checkpoints at the next save", c.W.Origin(gs[0].Cond))
+	}
+}
+
+func c02r7(c *Ctx, id string) {
+	w := c.W
+	fl := w.Method("metadata", "fileMetadata", "Load")
+	c.need(fl != nil, id, "metadata.fileMetadata.Load")
+	c.see(fl)
+	var rd *ssa.Call
+	allInstrs(fl, func(in ssa.Instruction) {
+		if call, ok := in.(*ssa.Call); ok && isStaticCall(call.Common(), "os", "", "ReadFile") {
+			rd = call
+		}
+	})
+	if rd == nil {
+		c.Undecided(id, "file-read", fl.Pos(), "no os.ReadFile in the file backend's Load")
+		return
+	}
+	ers := errResults(rd)
+	// (a) the empty-document stores run only under errors.Is(err, os.ErrNotExist)
+	nStore := 0
+	allInstrs(fl, func(in ssa.Instruction) {
+		cc := callOf(in)
+		if m, _ := csmapMethod(cc); m != "Store" {
+			return
+		}
+		nStore++
+		ok := guardedBy(in.Block(), true, func(v ssa.Value) bool {
+			call, isCall := v.(*ssa.Call)
+			return isCall && isStaticCall(call.Common(), "errors", "", "Is") && len(ers) > 0 && call.Common().Args[0] == ers[0] && w.Origin(call.Common().Args[1]) == "global(os.ErrNotExist)"
+		})
+		c.Check(ok, id, "file-absent@"+fname(fl), in.Pos(), "empty documents are produced only when the file does not exist", "empty checkpoint documents are produced for read errors other than os.ErrNotExist: a transient I/O fault at restart looks like 'no checkpoint' (resume from 0 / jump to latest, and the next save overwrites the intact file)")
+	})
+	if nStore == 0 {
+		c.Undecided(id, "file-absent", fl.Pos(), "no empty-document store found")
+	}
+	// (b) every other read error is returned
+	okRet := false
+	if len(ers) > 0 {
+		for _, sk := range errorSinks(ers[0]) {
+			if sk.Kind == "return" {
+				okRet = errGuard(sk.In.Block(), false, func(v ssa.Value) bool { return v == ers[0] })
+			}
+		}
+	}
+	c.Check(okRet, id, "file-error@"+fname(fl), rd.Pos(), "other read errors are returned", "a read error of the checkpoint file is not returned")
+	// Couchbase backend: exist ← true only after a successful read and parse
+	cbl := w.Method("couchbase", "cbMetadata", "Load")
+	c.need(cbl != nil, id, "couchbase.cbMetadata.Load")
+	n := 0
+	for _, f := range withAnon(cbl) {
+		var get, um *ssa.Call
+		allInstrs(f, func(in ssa.Instruction) {
+			if call, ok := in.(*ssa.Call); ok {
+				if isStaticCall(call.Common(), "/couchbase", "", "GetXattrs") {
+					get = call
+				}
+				if sf := call.Common().StaticCallee(); sf != nil && sf.Pkg != nil && strings.HasSuffix(sf.Pkg.Pkg.Path(), "/sonic") && sf.Name() == "Unmarshal" {
+					um = call
+				}
+			}
+		})
+		allInstrs(f, func(in ssa.Instruction) {
+			st, ok := in.(*ssa.Store)
+			if !ok || w.Origin(st.Val) != "const(true)" || !isBool(st.Val.Type()) {
+				return
+			}
+			// the captured `exist` cell
+			if _, isFV := st.Addr.(*ssa.FreeVar); !isFV {
+				return
+			}
+			n++
+			c.see(f)
+			okGet := get != nil && len(errResults(get)) > 0 && errGuardOrigin(w, in.Block(), true, w.Origin(errResults(get)[0]))
+			okUm := um != nil && errGuard(in.Block(), true, func(v ssa.Value) bool { return v == ssa.Value(um) })
+			c.Check(okGet && okUm, id, "cb-exist@"+fname(f), in.Pos(), "exist ← true only after the xattr was read and parsed", fmt.Sprintf("exist is raised without both a successful read (%v) and a successful parse (%v): a document without a valid checkpoint counts as 'a checkpoint exists' and auto-reset=latest is skipped", okGet, okUm))
+		})
+	}
+	if n == 0 {
+		c.Undecided(id, "cb-exist", cbl.Pos(), "no store exist ← true found in the Couchbase backend's Load")
+	}
+}
+
+// errGuardOrigin: block b runs only when the error value with the given origin is known nil/non-nil
+// (the value may be re-loaded from a cell, so it is compared by origin term).
+func errGuardOrigin(w *World, b *ssa.BasicBlock, wantNil bool, origin string) bool {
+	return errGuard(b, wantNil, func(v ssa.Value) bool { return w.Origin(v) == origin })
 }
